@@ -156,7 +156,13 @@ def replay(args):
     pt = build(old, emb)
     before = pt.copy
     rows_T = {r["T"] for r in old}
-    req = [emb.T(t) + (3e-7 if (near and t in rows_T) else 0.0) for t in case["req"]]
+    # near: a request equal to an existing row, and every repetition of a value inside the request (anywhere: inside an
+    # interval or beyond either end of the table), is moved by a fraction of the tolerance so that it is a NEAR duplicate
+    req, seen_t = [], {}
+    for t in case["req"]:
+        k = seen_t.get(t, 0) + (1 if t in rows_T else 0)
+        seen_t[t] = seen_t.get(t, 0) + 1
+        req.append(emb.T(t) + (3e-7 * k if near else 0.0))
     try:
         ret = pt.insert_temperature_interval(list(req) if len(req) != 1 or near else req[0])
     except Exception as e:
